@@ -175,12 +175,44 @@ def check_c10(tier, only_cases=None):
                    "fragments are built by the caller already escaped; a fragment containing the delimiter cannot be framed at all and is not generated as markup"],
                   lambda k: cases[k] if isinstance(k, int) and k < len(cases) else None, trace)
 
+def check_c14(tier, only_cases=None):
+    t0 = time.time(); prop = "C14"
+    verdict = Verdict(prop)
+    wd = workdir(f"{prop}-{tier}")
+    build_harness(["wire"])
+    gen, gr = tlc_generate("c14", 200 if tier == "thorough" else 20, 0, f"{prop}-gen")
+    cases = gen["cases"] if only_cases is None else only_cases
+    for k, c in enumerate(cases):
+        if c["op"] == "random":
+            c["seed"] = c["seed"] * 7919 + seed()
+    cpath = os.path.join(wd, "cases.json")
+    json.dump({"cases": cases}, open(cpath, "w"))
+    trace = os.path.join(wd, "c14.trace")
+    run_harness("wire", ["c14", cpath], trace)
+    stats, viols = validate_trace("WireTrace", trace, prop, f"{prop}-{tier}", TRACE_CFG, nchunks=8, independent=True)
+    outcomes = {}
+    for l in open(trace):
+        e = json.loads(l)
+        key = e.get("hello") or ",".join(r.split(":")[0] for r in e.get("res", ["panic"]))
+        outcomes[key] = outcomes.get(key, 0) + 1
+    return finish(prop, tier, t0, verdict, stats, viols, gr,
+                  {"samples": [cases[0], cases[len(cases) // 2], cases[-1]], "mutation_cases": len(cases), "outcome_histogram": outcomes,
+                   "exhaustive": False,
+                   "rule": "mutation scripts enumerated by TLC over 7 message templates: truncation / byte flips (3 masks) / invalid UTF-8 at 9 "
+                           "positions, splices of every slice pair, duplicated element, 40-digit integers, wrong namespace, 3000-deep nesting, "
+                           "2 MB comment, empty message, seeded random byte strings; each fed either as the server hello or as the reply to "
+                           "request 2 of 3 outstanding requests on a real session, followed by valid replies to 1 and 3; non-trivial = mutated"},
+                  ["bounded exploration: totality over all byte strings is not proved",
+                   "a garbage reply is attributed by the message-id a lenient reader finds in it; if it names another outstanding request only "
+                   "'no panic, no hang' is demanded"],
+                  lambda k: cases[k] if isinstance(k, int) and k < len(cases) else None, trace)
+
 def check(prop, tier):
-    return {"C10": check_c10, "C08": check_c08, "C09": check_c09, "C12": check_c12, "C13": check_c13}[prop](tier)
+    return {"C14": check_c14, "C10": check_c10, "C08": check_c08, "C09": check_c09, "C12": check_c12, "C13": check_c13}[prop](tier)
 
 def replay(prop, path):
     payload = json.load(open(path))
     c = payload.get("case")
     if prop == "C09":
         return check_c09("quick", only=c)
-    return {"C10": check_c10, "C08": check_c08, "C12": check_c12, "C13": check_c13}[prop]("quick", only_cases=[c] if prop != "C13" else [[], c])
+    return {"C14": check_c14, "C10": check_c10, "C08": check_c08, "C12": check_c12, "C13": check_c13}[prop]("quick", only_cases=[c] if prop != "C13" else [[], c])
